@@ -3,7 +3,7 @@ from vf import Query
 SRC = ["src/kernel/activity/BarrierImpl.cpp", "src/kernel/activity/ActivityImpl.cpp"]
 THOROUGH_MAX = 40  # all quick shapes + a fixed strided sample of the other thorough shapes (lib/vf.py)
 META = {
-    "bounds": "queued waiters 0..4 (quick: 0..2), each blocked in wait_for or only acquire_async-ed (all patterns), arrival with or without wait_for; "
+    "bounds": "queued waiters 0..4 (quick: 0..2), each blocked in wait_for or only acquire_async-ed (all patterns), arrival with or without wait_for; second use of a barrier (concrete size 2..3) that already released one complete group, built with the real constructor and calls only; "
               "barrier size symbolic over the full unsigned range above the number of waiters; unwind 8",
     "outside": "s4u layer, model-checker interleavings, barriers of size 0",
     "stubs": ["ActorImpl::simcall_answer (logs the order of answers)", "s4u::Host::is_on -> true", "MC_is_active -> 0", "xbt logging -> silent", "abort() = violation"],
